@@ -122,8 +122,9 @@ def decode_shard(job):
             entries.append((b, 2)); meta.append(("mut", (cls, None, b)))
         if with_bombs and rnd == 0:
             for size in (2048, 8192, 32768, 65535):
-                b, chain, nrec = g.gen_bomb(rng, size)
-                entries.append((b, 2)); meta.append(("bomb", (size, chain, nrec, b)))
+                for max_chain in (None, 120):       # unbounded chain, and one short enough to pass a 128-hop limit (names walked in full)
+                    b, chain, nrec = g.gen_bomb(rng, size, max_chain)
+                    entries.append((b, 2)); meta.append(("bomb", (size, chain, nrec, b)))
         tag = "dec-%d-%d" % (shard, rnd)
         inp, outp = os.path.join(tmp, tag + ".bin"), os.path.join(tmp, tag + ".jsonl")
         g.write_batch(inp, entries)
@@ -236,7 +237,8 @@ def decode_shard(job):
             elif kind == "bomb":
                 size, chain, nrec, b = pay
                 acc.ob("pointer_chain_messages")
-                acc.sigs.add(vf.h64("bomb:%d" % size))
+                acc.ob("pointer_chain_accepted" if "ok" in r else "pointer_chain_rejected")
+                acc.sigs.add(vf.h64("bomb:%d:%d:%s" % (size, chain, "ok" in r)))
                 acc.obs["pointer_chain_max_cpu_ms"] = max(acc.obs.get("pointer_chain_max_cpu_ms", 0), n // 1000000)
                 if n > time_bound_ns(len(b)):
                     slow.append((b, "pointer-chain:%d-pointers-x-%d-names" % (chain, nrec), n))
